@@ -25,10 +25,10 @@ func init() {
 	register(&prop{
 		id:    "C11",
 		level: "exploration",
-		rule: "PRNG rounds: 1-32 concurrent requesters x 1-4 responders x behaviour per request {immediate, released-before-Result, late (released after the timeout error was returned), twice, never}; every request carries a unique id and every reply names the id it answers; " +
+		rule: "PRNG rounds: 1-32 concurrent requesters x 1-4 responders x behaviour per request {immediate, released-before-Result, late (released after the timeout error was returned), twice, never, Result called after the timeout, two replies back to back, 3-5 replies from different goroutines in flight before Result, no reply with a zero or negative timeout}; every request carries a unique id and every reply names the id it answers; " +
 			"non-trivial = >=2 requests outstanding at once; distinct by (requesters, responders, multiset of behaviours). Rounds in which ActorDuplicateIdEvent{response/...} occurs (random response-id collision, D13) are classified and not judged",
 		assumptions: []string{
-			"timeouts are only judged from below: an error must not come before the timeout has elapsed on the monotonic clock; that it comes at all is covered by a generous watchdog whose expiry is inconclusive",
+			"timeouts are only judged from below: an error must not come before the timeout has elapsed on the monotonic clock; that it comes at all is covered by a generous watchdog; when it expires the verdict is taken from the state of the process: at rest (every goroutine parked, see atRest) means Result() will never return - a violation - anything else is inconclusive",
 			"where reply and timeout race (reply released around the deadline) both outcomes are accepted; the harness avoids that region: replies are released either before Result is called or after Result has returned",
 			"a third reply to one request would block the responder in the real code (result channel of capacity 1): outside the statement, not generated",
 		},
@@ -69,6 +69,8 @@ const (
 	bhNever
 	bhDelayedResult // reply at once, Result() called only after more than the timeout has passed since Request()
 	bhTwiceNow      // two replies back to back from inside Receive
+	bhFanOut        // 3-5 replies from different goroutines, all on their way before Result() is called
+	bhNeverNoTime   // no reply, and a timeout that is already used up (zero or negative)
 )
 
 type reqMsg struct {
@@ -168,11 +170,12 @@ func c11Run(c *caseCtx) (res caseResult) {
 	var wg sync.WaitGroup
 	startCh := make(chan struct{})
 	var stuck int32
+	var fanStarted, fanReturned int64
 	for i := 0; i < nReq; i++ {
 		i := i
 		o := &outs[i]
 		o.id = i + 1
-		o.bh = pick(r, bhImmediate, bhImmediate, bhBeforeResult, bhLate, bhTwice, bhNever, bhDelayedResult, bhTwiceNow)
+		o.bh = pick(r, bhImmediate, bhImmediate, bhBeforeResult, bhLate, bhTwice, bhNever, bhDelayedResult, bhTwiceNow, bhFanOut, bhNeverNoTime)
 		o.rsp = r.Intn(nRsp)
 		bhCount[o.bh]++
 		wg.Add(1)
@@ -181,8 +184,11 @@ func c11Run(c *caseCtx) (res caseResult) {
 			<-startCh
 			rsp := rsps[o.rsp]
 			to := timeout
-			if o.bh == bhImmediate || o.bh == bhBeforeResult || o.bh == bhTwice || o.bh == bhTwiceNow {
+			if o.bh == bhImmediate || o.bh == bhBeforeResult || o.bh == bhTwice || o.bh == bhTwiceNow || o.bh == bhFanOut {
 				to = 20 * time.Second // the reply is there (or on its way): the timeout must not matter
+			}
+			if o.bh == bhNeverNoTime {
+				to = time.Duration(-(o.id % 3)) * time.Millisecond // 0, -1ms, -2ms: e.g. time.Until(deadline) with nothing left
 			}
 			resp := e.Request(rpids[o.rsp], &reqMsg{ID: o.id, Bh: o.bh}, to)
 			o.respPID = resp.PID()
@@ -193,6 +199,26 @@ func c11Run(c *caseCtx) (res caseResult) {
 					return
 				}
 				rsp.release(o.id, 1)
+			}
+			if o.bh == bhFanOut {
+				if !waitFor(wd, func() bool { return rsp.got(o.id) }) {
+					atomic.AddInt32(&stuck, 1)
+					return
+				}
+				k := 3 + o.id%3
+				var first int32
+				for j := 1; j <= k; j++ {
+					j := j
+					atomic.AddInt64(&fanStarted, 1)
+					go func() {
+						rsp.release(o.id, j)
+						atomic.AddInt32(&first, 1)
+						atomic.AddInt64(&fanReturned, 1)
+					}()
+				}
+				// the first reply has been accepted, the others are inside their Send (or already through)
+				waitFor(wd, func() bool { return atomic.LoadInt32(&first) > 0 })
+				time.Sleep(2 * time.Millisecond)
 			}
 			if o.bh == bhDelayedResult {
 				// scatter/gather: the reply has been sent (Respond returned), then more than the timeout passes
@@ -217,7 +243,27 @@ func c11Run(c *caseCtx) (res caseResult) {
 	select {
 	case <-done:
 	case <-time.After(wd + 25*time.Second):
-		res.inconclusive("Result() did not return within the watchdog (%s)", res.Desc)
+		pending := 0
+		for i := range outs {
+			if !outs[i].finished {
+				pending++
+			}
+		}
+		if rest, where := atRest(3 * time.Second); rest {
+			res.violate("%d call(s) of Result() have not returned long after every timeout has passed, and never will: the process is at rest (%s) (%s)", pending, where, res.Desc)
+		} else {
+			res.inconclusive("Result() did not return within the watchdog (%s; %s)", res.Desc, where)
+		}
+		return
+	}
+	// every goroutine that sent one of several replies to one request has come back from its send
+	fanProg := func() int64 { return atomic.LoadInt64(&fanReturned) }
+	if fin, _ := settle(wd, 10*time.Second, func() bool { return fanProg() == atomic.LoadInt64(&fanStarted) }, fanProg); !fin {
+		if rest, where := atRest(3 * time.Second); rest {
+			res.violate("%d of %d concurrent replies are still inside their send after Result() has returned, and the process is at rest (%s): the repliers are blocked for good", atomic.LoadInt64(&fanStarted)-fanProg(), atomic.LoadInt64(&fanStarted), where)
+		} else {
+			res.inconclusive("concurrent replies did not all return (%s)", where)
+		}
 		return
 	}
 	if atomic.LoadInt32(&stuck) > 0 {
@@ -260,17 +306,17 @@ func c11Run(c *caseCtx) (res caseResult) {
 			continue
 		}
 		switch o.bh {
-		case bhImmediate, bhBeforeResult, bhTwice, bhDelayedResult, bhTwiceNow:
+		case bhImmediate, bhBeforeResult, bhTwice, bhDelayedResult, bhTwiceNow, bhFanOut:
 			if o.err != nil {
 				res.violate("request %d (behaviour %d): Result returned error %v although the reply had been sent (elapsed %v)", o.id, o.bh, o.err, o.elapsed)
 				continue
 			}
-		case bhLate, bhNever:
+		case bhLate, bhNever, bhNeverNoTime:
 			if o.err == nil {
 				res.violate("request %d got a value (%v) although its responder never replied before Result returned", o.id, o.val)
 				continue
 			}
-			if o.elapsed < timeout {
+			if o.elapsed < timeout && o.bh != bhNeverNoTime {
 				res.violate("request %d: timeout error after %v, before the timeout of %v had passed", o.id, o.elapsed, timeout)
 			}
 		}
@@ -280,7 +326,7 @@ func c11Run(c *caseCtx) (res caseResult) {
 				res.violate("request %d: Result returned %T", o.id, o.val)
 			} else if rp.ForID != o.id {
 				res.violate("request %d received the reply to request %d (cross-talk)", o.id, rp.ForID)
-			} else if rp.Nth != 1 {
+			} else if rp.Nth != 1 && o.bh != bhFanOut {
 				res.violate("request %d received reply number %d", o.id, rp.Nth)
 			}
 		}
